@@ -198,13 +198,33 @@ func (f *Frame) doCallInner(instr ssa.Instruction, cc *ssa.CallCommon, st *State
 			}
 			return Val{T: rt, Tuple: vals}
 		}
-		e.note("callee %s has loops and no contract: result havocked, no side effects assumed", full)
+		e.note("callee %s has loops and no contract: result arbitrary; the objects its pointer arguments point to and the elements of its slice arguments become arbitrary, nothing else is assumed to be written", full)
 	} else {
-		e.note("call to %s (no contract, no model): result havocked, no side effects assumed", full)
+		e.note("call to %s (no contract, no model): result arbitrary; the objects its pointer arguments point to and the elements of its slice arguments become arbitrary, nothing else is assumed to be written", full)
 	}
 	e.siteCall(f, st, funcKey(callee), args, pos)
 	e.tick(st)
 	e.unmodelled[full] = true
+	// a callee whose body is not looked at may write through what it is handed
+	if !knownReadOnly(full) {
+		for _, a := range args {
+			if a.T == nil {
+				continue
+			}
+			switch u := a.T.Underlying().(type) {
+			case *types.Pointer:
+				if pt, ok := e.ptrTerm(a); ok {
+					if _, isStruct := u.Elem().Underlying().(*types.Struct); isStruct && !isLockType(u.Elem()) {
+						e.havocLoc(st, modLoc{kind: "obj", base: pt, rootT: u.Elem()})
+					}
+				}
+			case *types.Slice:
+				if a.S != "" {
+					e.havocLoc(st, modLoc{kind: "elems", slice: a.S, base: "(s.arr " + a.S + ")", rootT: u.Elem()})
+				}
+			}
+		}
+	}
 	return e.havocVal(rt, "call."+callee.Name(), st)
 }
 
@@ -1151,4 +1171,14 @@ func funcFieldOf(v ssa.Value) (tn, fld string, ok bool) {
 	pt := fa.X.Type().Underlying().(*types.Pointer).Elem()
 	st := pt.Underlying().(*types.Struct)
 	return typeName(pt), st.Field(fa.Field).Name(), true
+}
+
+// knownReadOnly: external callees that are known not to write through their arguments (accessors, formatting, parsing).
+func knownReadOnly(full string) bool {
+	for _, p := range []string{"fmt.", "errors.", "strings.", "strconv.", "unicode", "math.", "time.", "(time.", "(*time.", "bytes.", "os.", "context.", "path.", "net/url.", "(*net/url.", "encoding/binary.", "(*google.golang.org/protobuf", "google.golang.org/protobuf", "(*google.golang.org/grpc", "google.golang.org/grpc", "(*github.com/go-logr", "github.com/go-logr", "(github.com/go-logr", "runtime", "(*go.opentelemetry.io/proto", "go.opentelemetry.io/proto", "(*github.com/prometheus", "github.com/prometheus", "(github.com/prometheus"} {
+		if strings.HasPrefix(full, p) {
+			return true
+		}
+	}
+	return false
 }
